@@ -659,15 +659,30 @@ func (g *gen) attackVote(kind string, h uint64, r uint32) *voteMsg {
 	case 5: // signed for another round / height / hash
 		m.desc = "wrong-target"
 		hash := tgt()
+		if hash == "" && g.pick(2) == 0 {
+			hash = g.randHash()
+		}
+		variant := g.pick(5)
 		for _, i := range g.randSubset(n, 70) {
 			var sig []byte
-			switch g.pick(3) {
+			switch variant {
 			case 0:
 				sig = g.w.sign(set.keys[i], kind, h, r+1, hash)
 			case 1:
 				sig = g.w.sign(set.keys[i], kind, h+1, r, hash)
-			default:
+			case 2:
 				sig = g.w.sign(set.keys[i], kind, h, r, hash+"x")
+			case 3:
+				// a genuine nil vote of that validator for this very round, filed under a block hash
+				// (or a genuine block vote filed under nil)
+				if hash == "" {
+					sig = g.w.sign(set.keys[i], kind, h, r, g.randHash())
+				} else {
+					sig = g.w.sign(set.keys[i], kind, h, r, "")
+				}
+			default:
+				// a genuine vote for another block of the same round
+				sig = g.w.sign(set.keys[i], kind, h, r, g.randHash())
 			}
 			add(hash, gcrypto.SparseSignature{KeyID: be16(i), Sig: sig}, sigMeta{i, false, "othertarget"})
 		}
